@@ -34,7 +34,14 @@ pub enum Head {
     IfOdd(i64),
     /// `\ifcase n` followed by `ors` `\or`s
     IfCase(i64),
+    /// `~ .. \else .. \fi` where `\let~=\iftrue` (the active character `~` is the conditional)
+    ActiveTrue,
+    /// `\iftrue .. \else .. ~` / `\iffalse .. \else .. ~` where `\let~=\fi`
+    TrueActiveFi,
+    FalseActiveFi,
 }
+
+pub const ACTIVE: Tok = Tok::Ch('~', 13);
 
 #[derive(Clone, Debug, PartialEq, Eq)]
 pub struct Variant {
@@ -56,8 +63,8 @@ impl Variant {
     /// §501-§509: truth of the condition (None for `\ifcase`)
     pub fn truth(&self) -> Option<bool> {
         Some(match self.head {
-            Head::IfTrue | Head::AliasTrue => true,
-            Head::IfFalse => false,
+            Head::IfTrue | Head::AliasTrue | Head::ActiveTrue | Head::TrueActiveFi => true,
+            Head::IfFalse | Head::FalseActiveFi => false,
             Head::IfNum(a, r, b) => match r {
                 '<' => a < b,
                 '>' => a > b,
@@ -90,6 +97,12 @@ impl Variant {
             }
         }
     }
+    pub fn uses_active_if(&self) -> bool {
+        self.head == Head::ActiveTrue
+    }
+    pub fn uses_active_fi(&self) -> bool {
+        matches!(self.head, Head::TrueActiveFi | Head::FalseActiveFi)
+    }
     pub fn is_alias(&self) -> bool {
         self.head == Head::AliasTrue
     }
@@ -101,8 +114,9 @@ impl Variant {
     }
     pub fn head_tokens(&self, out: &mut Vec<Tok>) {
         match self.head {
-            Head::IfTrue => out.push(Tok::Cs("iftrue")),
-            Head::IfFalse => out.push(Tok::Cs("iffalse")),
+            Head::IfTrue | Head::TrueActiveFi => out.push(Tok::Cs("iftrue")),
+            Head::IfFalse | Head::FalseActiveFi => out.push(Tok::Cs("iffalse")),
+            Head::ActiveTrue => out.push(ACTIVE),
             Head::AliasTrue => out.push(Tok::Cs("myif")),
             Head::IfNum(a, r, b) => {
                 out.push(Tok::Cs("ifnum"));
@@ -171,6 +185,11 @@ pub struct TreeFacts {
     pub negative_odd_live: bool,
     pub brace_in_skipped_text: bool,
     pub live_branch_ended_by_or: bool,
+    /// `~` stands for \iftrue / for \fi somewhere in the tree (at most one of the two per tree), live / in skipped text
+    pub active_if: bool,
+    pub active_fi: bool,
+    pub active_alias_live: bool,
+    pub active_alias_in_skipped_text: bool,
     pub letters: usize,
 }
 
@@ -188,6 +207,15 @@ impl Cond {
         r.facts.depth = r.facts.depth.max(depth);
         if !live && self.v.is_alias() {
             r.facts.aliased_conditional_in_skipped_text = true;
+        }
+        if self.v.uses_active_if() || self.v.uses_active_fi() {
+            r.facts.active_if |= self.v.uses_active_if();
+            r.facts.active_fi |= self.v.uses_active_fi();
+            if live {
+                r.facts.active_alias_live = true;
+            } else {
+                r.facts.active_alias_in_skipped_text = true;
+            }
         }
         if !live && self.v.ors > 0 {
             r.facts.or_at_depth_gt0_in_skipped_text = true;
@@ -261,7 +289,7 @@ impl Cond {
                 }
             }
         }
-        r.tokens.push(Tok::Cs(if self.v.is_alias() { "myfi" } else { "fi" }));
+        r.tokens.push(if self.v.uses_active_fi() { ACTIVE } else { Tok::Cs(if self.v.is_alias() { "myfi" } else { "fi" }) });
     }
 
     /// The places where a junk token can be inserted: (path of body, position in the body, context).
@@ -515,6 +543,16 @@ impl Meaning {
 }
 pub type Env = BTreeMap<&'static str, Meaning>;
 
+/// Key under which the meaning of the active character `c` is stored in an `Env`.
+pub fn active_key(c: char) -> &'static str {
+    match c {
+        '~' => "~",
+        '|' => "|",
+        '!' => "!",
+        _ => "<active character>",
+    }
+}
+
 /// The primitives under their usual names.
 pub fn primitives() -> Env {
     BTreeMap::from([
@@ -562,6 +600,8 @@ pub struct Events {
     pub marked_token_skipped: bool,
     /// a marked token was read as the first or second token of an `\expandafter` or by `\noexpand` (the marker is dropped by back_input)
     pub marker_dropped_by_backup: bool,
+    /// the token an `\expandafter` expanded was an active character
+    pub xa_expands_active_char: bool,
     pub expansions: usize,
     pub max_cond_depth: usize,
 }
@@ -608,6 +648,12 @@ impl<'a> Expander<'a> {
     fn meaning(&self, t: Tok) -> Meaning {
         match t {
             Tok::Cs(n) => self.env.get(n).cloned().unwrap_or(Meaning::Undefined(n)),
+            // an active character is a control sequence token like any other (§289: cs_token_flag+active_base+c);
+            // its meaning is stored in the environment under the one-character name
+            Tok::Ch(c, 13) => {
+                let n = active_key(c);
+                self.env.get(n).cloned().unwrap_or(Meaning::Undefined(n))
+            }
             _ => Meaning::Unexpandable,
         }
     }
@@ -666,6 +712,9 @@ impl<'a> Expander<'a> {
                     self.events.marker_dropped_by_backup = true;
                 }
                 if m2.expandable() {
+                    if matches!(t2, Tok::Ch(_, 13)) {
+                        self.events.xa_expands_active_char = true;
+                    }
                     self.xa_depth += 1;
                     if m2 == Meaning::ExpandAfter {
                         self.events.xa_chain = self.events.xa_chain.max(self.xa_depth + 1);
@@ -919,6 +968,17 @@ mod tests {
         // marker dropped when the marked token is backed up by an outer \expandafter
         let inp = [cs("xa"), cs("xa"), cs("xa"), ch('x'), cs("noexpand"), cs("a")];
         assert_eq!(expand_all(&e, &inp, true).0, Ok(vec![ch('x'), ch('y')]));
+    }
+    #[test]
+    fn active_characters() {
+        let mut e = env();
+        e.insert("~", Meaning::Macro(vec![cs("b")]));
+        let t = Tok::Ch('~', 13);
+        assert_eq!(expand_all(&e, &[cs("xa"), ch('x'), t], true).0, Ok(vec![ch('x'), cs("b")].into_iter().flat_map(|x| if x == cs("b") { vec![ch('y')] } else { vec![x] }).collect::<Vec<_>>()));
+        assert_eq!(expand_all(&e, &[cs("noexpand"), t, t], true).0, Ok(vec![t, ch('y')]));
+        e.insert("~", Meaning::IfFalse);
+        assert_eq!(expand_all(&e, &[t, ch('p'), cs("else"), ch('q'), cs("fi")], true).0, Ok(vec![ch('q')]));
+        assert_eq!(expand_all(&e, &[cs("iffalse"), t, cs("fi"), ch('p'), cs("fi"), ch('q')], true).0, Ok(vec![ch('q')]));
     }
     #[test]
     fn conditionals() {
